@@ -13,6 +13,13 @@ pattern of three targets, repeated and nested targets, missing targets in every 
 slash / dir/../ spellings, from inside and outside the tree; the violating code sits in each file of the tree in turn (and in
 none, and in all).  Expected = the model / spec on the union of the files the targets select, and what `pyscn analyze`
 reports for the same targets.
+Sibling targets whose names are string prefixes of each other (layout "sib": app / app_v2 / app.old / application next to an
+unrelated name and a real sub-directory): every ordered pair short/long, lists of three and more, repeated and really nested
+targets, in every spelling (relative, ./, absolute, trailing slash, dir/../, mixed absolute + relative, from outside), with the
+import cycle in the shorter-named directory, in the longer-named ones, in every one and in none, --max-cycles at / one below the
+number of cycles.  Expected = the project roots Cli/GateRoots.v computes from the cleaned path components (a target is dropped
+only if it IS an earlier target or lies INSIDE another one), the cycles of the whole-tree analysis below those roots, and what
+`pyscn analyze --select deps` reports for the same targets.
 """
 import os
 import re
@@ -196,17 +203,19 @@ def canon_report(data):
 # ----------------------------------------------------------------------------------------------
 def mk_case(proj, select=None, maxcx=None, allow_dead=False, skip_clones=False, allow_circ=False, maxcyc=None, quiet=False,
             cfg=None, layout="in", decoy=None, explicit=None, target_missing=False, order=None, targets=None, spell=None,
-            cfg_at=None, cwd_out=False, shared=False, both=False):
+            cfg_at=None, cwd_out=False, shared=False, both=False, same=False):
     """cfg / decoy / explicit: dict with optional keys max, min, sev (values as written to the TOML file).
     layout: in (cwd = project, target .), out (cwd elsewhere, target ../proj), noargs (cwd = project, no target at all),
     split (the project in two directories one/ and two/ - the import cycles in two/, with both=True some of them in one/ -; the
     targets are the entries of `order`: one, two, also repeated, `.` and other spellings of them),
     list (a ListProject; targets = names of ATOMS, spell = how each is written, cwd_out = run from a directory next to the tree,
     cfg_at = root / da: where the config file lies; shared = run in the read-only copy of the tree that all such cases of one
-    placement share, without the extra `pyscn analyze` run on the same targets)."""
+    placement share, without the extra `pyscn analyze` run on the same targets),
+    sib (a SibProject; targets = names of SIB_DIRS, spell / cwd_out as for list; same = `pyscn analyze --select deps` is run on the
+    same targets too)."""
     return dict(proj=proj, select=select, maxcx=maxcx, allow_dead=allow_dead, skip_clones=skip_clones, allow_circ=allow_circ,
                 maxcyc=maxcyc, quiet=quiet, cfg=cfg, layout=layout, decoy=decoy, explicit=explicit, target_missing=target_missing,
-                order=order, targets=targets, spell=spell, cfg_at=cfg_at, cwd_out=cwd_out, shared=shared, both=both)
+                order=order, targets=targets, spell=spell, cfg_at=cfg_at, cwd_out=cwd_out, shared=shared, both=both, same=same)
 
 
 def toml_of(c):
@@ -542,6 +551,141 @@ def list_cases(rng, LP, thorough):
 
 
 # ----------------------------------------------------------------------------------------------
+# sibling targets whose names share a string prefix (dependencyProjectRoots: containment is by path components, not by text)
+# ----------------------------------------------------------------------------------------------
+SIB_SHORT = "app"
+SIB_LONG = ["app_v2", "app.old", "application"]      # each starts with the text of SIB_SHORT, none lies inside it
+SIB_OTHER = "web"                                    # shares no prefix
+SIB_NESTED = "app/sub"                               # really inside SIB_SHORT; holds no cycle of its own
+SIB_DIRS = [SIB_SHORT] + SIB_LONG + [SIB_OTHER, SIB_NESTED]
+SIB_PLACEMENTS = {"short": (SIB_SHORT,), "long": tuple(SIB_LONG), "each": tuple([SIB_SHORT] + SIB_LONG + [SIB_OTHER]), "none": ()}
+SIB_SPELLINGS = ("rel", "dot", "abs", "slash", "dotdot")
+
+
+class SibProject:
+    """One directory per name of SIB_DIRS; the directories of `cyc` hold a two-module import cycle, the others a plain module."""
+    mock = False
+    empty = False
+    cx = []
+
+    def __init__(self, name, cyc):
+        self.name = "sib_" + name
+        self.cyc = tuple(cyc)
+        self.n_cycles = len(self.cyc)
+        self.files = {}
+        for k, d in enumerate(SIB_DIRS):
+            if d in self.cyc:
+                self.files["%s/s%da.py" % (d, k)] = "import s%db\n\n\ndef ga%d():\n    return s%db\n" % (k, k, k)
+                self.files["%s/s%db.py" % (d, k)] = "import s%da\n\n\ndef gb%d():\n    return s%da\n" % (k, k, k)
+            else:
+                self.files["%s/s%dp.py" % (d, k)] = "def plain%d(x):\n    return x\n" % k
+
+    def write(self, d):
+        for rel, c in self.files.items():
+            p = os.path.join(d, rel)
+            os.makedirs(os.path.dirname(p), exist_ok=True)
+            with open(p, "w") as f:
+                f.write(c)
+
+
+def sib_spell(rel, mode, pd, cwd_out):
+    if mode == "abs":
+        return os.path.join(pd, rel)
+    s = {"dot": "./" + rel, "slash": rel + "/", "dotdot": os.path.join(SIB_OTHER, "..", rel)}.get(mode, rel)
+    return os.path.join("..", "proj", s) if cwd_out else s
+
+
+def sib_components(case):
+    """The cleaned absolute path of every target, as the list of its names (what filepath.Abs gives; the tree stands at /R/proj,
+    a run from outside starts in /R/run)."""
+    cwd = "/R/run" if case["cwd_out"] else "/R/proj"
+    return [tuple(x for x in os.path.normpath(os.path.join(cwd, sib_spell(t, m, "/R/proj", case["cwd_out"]))).split("/") if x)
+            for t, m in zip(case["targets"], case["spell"])]
+
+
+def sib_roots_py(paths):
+    """The property read in Python: a target is a project root unless it IS an earlier target or lies INSIDE another target
+    (containment by whole path components)."""
+    roots = []
+    for i, t in enumerate(paths):
+        dropped = any((u == t and j < i) or (len(u) < len(t) and t[:len(u)] == u) for j, u in enumerate(paths) if j != i)
+        if not dropped:
+            roots.append(t)
+    return roots
+
+
+def sib_roots_coq(cases):
+    """Cli/GateRoots.v dependency_project_roots on the path components of every sibling case (names numbered) -> one list of
+    roots (tuples of names) per case."""
+    lists = sorted({tuple(sib_components(c)) for c in cases})
+    names = sorted({x for l in lists for t in l for x in t})
+    no = {x: i + 1 for i, x in enumerate(names)}
+    items = [clist([clist([cN(no[x]) for x in t]) for t in l]) for l in lists]
+    out = lib.coq_eval("C19_roots", "From Coq Require Import NArith List.\nImport ListNotations.\nFrom PV Require Import Cli.GateRoots.",
+                       "Eval vm_compute in %s.\n" % clist(["dependency_project_roots [] %s" % x for x in items]))
+    vals = lib.parse_coq_values(out)[0]
+    if len(vals) != len(lists):
+        raise RuntimeError("%d root lists for %d target lists" % (len(vals), len(lists)))
+    return {l: [tuple(names[n - 1] for n in r) for r in v] for l, v in zip(lists, vals)}
+
+
+def sib_analysis(case, tree_an, roots):
+    """The cycles of the whole-tree analysis that lie below one of the project roots (each root is analysed on its own; roots are
+    neither equal nor nested, so no cycle is met twice)."""
+    rel_roots = ["/".join(r[2:]) for r in roots]           # below /R/proj
+    where = {base(f)[:-3]: f for f in case["proj"].files}
+    below = lambda c: any(where[c[0]].startswith(r + "/") for r in rel_roots)
+    return {"functions": [], "findings": [], "cycles": [c for c in tree_an["cycles"] if below(c)], "error": False}
+
+
+def sib_target_lists():
+    pairs = [(SIB_SHORT, l) for l in SIB_LONG] + [(l, SIB_SHORT) for l in SIB_LONG]
+    others = [(SIB_LONG[0], SIB_LONG[2]), (SIB_LONG[2], SIB_LONG[1]), (SIB_SHORT, SIB_SHORT), (SIB_OTHER, SIB_SHORT),
+              (SIB_SHORT, SIB_LONG[0], SIB_LONG[2]), (SIB_LONG[2], SIB_LONG[1], SIB_SHORT), (SIB_LONG[0], SIB_SHORT, SIB_LONG[0]),
+              (SIB_SHORT, SIB_NESTED, SIB_LONG[0]), (SIB_NESTED, SIB_LONG[2]), (SIB_LONG[1], SIB_NESTED, SIB_SHORT),
+              (SIB_LONG[0], SIB_NESTED), tuple(SIB_DIRS), tuple(reversed(SIB_DIRS))]
+    return pairs, others
+
+
+def sib_cases(rng, SP, thorough):
+    """Prefix pairs (both orders): every spelling (all targets the same way, absolute + relative mixed both ways, from outside the
+    tree) with the placement of the cycles rotating (thorough: every placement), every placement plainly spelled, and --max-cycles
+    at / one below the number of cycles.  Other lists: every placement plainly spelled, plus one (thorough: every) other spelling
+    with the placement rotating."""
+    cs = []
+    dep = dict(layout="sib", select=["deps"])
+    pairs, others = sib_target_lists()
+    places = ("long", "each", "short")
+    spells = [((m, m), False) for m in SIB_SPELLINGS[1:]] + [(("abs", "rel"), False), (("rel", "abs"), False), (("dot", "slash"), False),
+                                                            (("rel", "rel"), True), (("abs", "dotdot"), True)]
+    for li, L in enumerate(pairs):
+        for pname in places:
+            cs.append(mk_case(SP[pname], targets=L, spell=("rel", "rel"), **dep))
+        for si, (sp, out) in enumerate(spells):
+            for pname in (places if thorough else [places[(si + li) % 3]]):
+                cs.append(mk_case(SP[pname], targets=L, spell=sp, cwd_out=out, **dep))
+        cs.append(mk_case(SP["none"], targets=L, spell=("rel", "rel"), **dep))
+        # the limit at / one below the number of cycles of the two directories together; the other switches of the step
+        cs.append(mk_case(SP["each"], targets=L, spell=("rel", "rel"), layout="sib", select=["deps"], maxcyc=2))
+        cs.append(mk_case(SP["each"], targets=L, spell=("rel", "rel"), layout="sib", select=["circular"], maxcyc=1))
+        cs.append(mk_case(SP["long"], targets=L, spell=("rel", "rel"), layout="sib", select=["deps"], maxcyc=1))
+        cs.append(mk_case(SP["long"], targets=L, spell=("rel", "rel"), layout="sib", select=["deps"], maxcyc=0, quiet=(li % 2 == 0)))
+        cs.append(mk_case(SP["long"], targets=L, spell=("rel", "rel"), layout="sib", select=["deps"], allow_circ=True))
+    for li, L in enumerate(others):
+        for k, pname in enumerate(places):
+            cs.append(mk_case(SP[pname], targets=L, spell=("rel",) * len(L), **dep))
+            for j in (range(4) if thorough else [li % 4] if k == li % 3 else []):
+                sp = [("abs",) * len(L), ("dot",) * len(L), tuple(SIB_SPELLINGS[(i + li) % 5] for i in range(len(L))),
+                      tuple(rng.choice(SIB_SPELLINGS) for _ in L)][j]
+                cs.append(mk_case(SP[pname], targets=L, spell=sp, cwd_out=(j == 3), **dep))
+        n = len(set(L) - {SIB_NESTED})
+        if thorough:
+            cs.append(mk_case(SP["each"], targets=L, spell=("rel",) * len(L), layout="sib", select=["deps"], maxcyc=n))
+        cs.append(mk_case(SP["each"], targets=L, spell=("rel",) * len(L), layout="sib", select=["deps"], maxcyc=n - 1))
+    return cs
+
+
+# ----------------------------------------------------------------------------------------------
 # running the implementation
 # ----------------------------------------------------------------------------------------------
 RE_CX = re.compile(r"^(.+?):(\d+):(\d+): (\S+) is too complex \((-?\d+) > (-?\d+)\)$")
@@ -620,6 +764,8 @@ def run_case_impl(args):
         with open(os.path.join(pd, "da" if case["cfg_at"] == "da" else "", ".pyscn.toml"), "w") as f:
             f.write(toml_of(case["cfg"]))
     rund = os.path.join(d, "run")
+    if case["shared"] and case["layout"] == "sib":
+        rund = os.path.join(os.path.dirname(pd), "run")
     if not case["shared"]:
         os.makedirs(rund, exist_ok=True)
     if case["layout"] == "noargs":
@@ -658,6 +804,9 @@ def run_case_impl(args):
     elif case["layout"] == "list":
         cwd = rund if case["cwd_out"] else pd
         targets = [spell_target(ATOMS[t][0], ATOMS[t][1], m, pd, case["cwd_out"]) for t, m in zip(case["targets"], case["spell"])]
+    elif case["layout"] == "sib":
+        cwd = rund if case["cwd_out"] else pd
+        targets = [sib_spell(t, m, pd, case["cwd_out"]) for t, m in zip(case["targets"], case["spell"])]
     else:
         cwd, targets = rund, [os.path.join("..", "proj")]
     if case["target_missing"]:
@@ -675,6 +824,10 @@ def run_case_impl(args):
         if case["cfg"] is not None:
             os.remove(os.path.join(pd, "da" if case["cfg_at"] == "da" else "", ".pyscn.toml"))
         rca, data, erra = lib.analyze_json(cwd, ANALYZE_OPTS + targets[:-1], target=targets[-1], timeout=120)
+        res["same_targets"] = canon_report(data) if data is not None else None
+        res["same_targets_rc"], res["same_targets_err"] = rca, erra[-300:]
+    if case["layout"] == "sib" and case["same"]:
+        rca, data, erra = lib.analyze_json(cwd, ["--select", "deps"] + targets[:-1], target=targets[-1], timeout=120)
         res["same_targets"] = canon_report(data) if data is not None else None
         res["same_targets_rc"], res["same_targets_err"] = rca, erra[-300:]
     if not case["shared"]:
@@ -774,7 +927,9 @@ def selected(case, name, default):
 
 
 def describe(case):
-    d = {k: v for k, v in case.items() if k not in ("proj", "an")}
+    d = {k: v for k, v in case.items() if k not in ("proj", "an", "roots")}
+    if case["layout"] == "sib":
+        d["project_roots_by_the_model"] = ["/".join(r[2:]) for r in case["roots"]]
     d["project"] = {"name": case["proj"].name, "files": case["proj"].files}
     return d
 
@@ -818,6 +973,7 @@ def main(tier):
     rprojs = [random_project(rng, i) for i in range(n_rand_proj)]
     all_projects = list(P.values()) + rprojs
     LP = {name: ListProject(name, bad) for name, bad in PLACEMENTS}
+    SP = {name: SibProject(name, cyc) for name, cyc in SIB_PLACEMENTS.items()}
 
     root = lib.fresh_dir("c19")
     if not getattr(ck, "go_ok", False):
@@ -826,7 +982,7 @@ def main(tier):
     # ---- analysis results per project (config-free tree), plus once with a [complexity] section present
     an = {}
     with ThreadPoolExecutor(max_workers=8) as ex:
-        futs = {p.name: ex.submit(analyse_project, ck, p, os.path.join(root, "an_" + p.name)) for p in all_projects + list(LP.values())}
+        futs = {p.name: ex.submit(analyse_project, ck, p, os.path.join(root, "an_" + p.name)) for p in all_projects + list(LP.values()) + list(SP.values())}
         for n, f in futs.items():
             an[n] = f.result()
     a2 = analyse_project(ck, P["boundary"], os.path.join(root, "an_boundary_cfg"), "[complexity]\nmax_complexity = 25\n")
@@ -849,6 +1005,11 @@ def main(tier):
         if len(a["cycles"]) != p.n_cycles:
             ck.notes.append("project %s: expected %d cycles, analyze reports %d" % (p.name, p.n_cycles, len(a["cycles"])))
 
+    for sp in SP.values():
+        a = an.get(sp.name)
+        want = sorted(tuple(sorted(base(f)[:-3] for f in sp.files if f.startswith(d + "/"))) for d in sp.cyc)
+        if a is not None and a["cycles"] != want:
+            ck.notes.append("project %s: expected the cycles %s, analyze reports %s" % (sp.name, want, a["cycles"]))
     for lp in LP.values():
         a = an.get(lp.name)
         if a is None:
@@ -868,16 +1029,51 @@ def main(tier):
         cases.append(random_case(rng, [p for p in all_projects if not p.empty]))
     n_list0 = len(cases)
     cases += list_cases(rng, LP, thorough)
+    n_sib0 = len(cases)
+    scases = sib_cases(rng, SP, thorough)
+    for k, c in enumerate(scases):
+        # `pyscn analyze` on the very same targets: the plainly spelled cases under the default flags and every fourth of the others
+        # (thorough: all); the remaining cases run in a read-only copy of the tree that they share
+        c["same"] = thorough or k % 4 == 0 or (all(m == "rel" for m in c["spell"]) and c["maxcyc"] is None and not c["allow_circ"]
+                                               and not c["cwd_out"] and c["proj"].n_cycles > 0)
+        c["shared"] = not c["same"]
+    cases += scases
     cases = [c for c in cases if an.get(c["proj"].name) is not None]
-    for c in cases:
-        # the analysis results the case is judged against: the project's, or (target lists) those of the union of the selected files
-        c["an"] = (list_analysis(c, an[c["proj"].name]) if c["layout"] == "list" else
-                   split_analysis(c, an[c["proj"].name]) if c["layout"] == "split" else an[c["proj"].name])
+    # the project roots of the sibling target lists: the model (Cli/GateRoots.v) on the cleaned path components (evaluated while
+    # the implementation runs), next to the property read in Python
+    scases = [c for c in cases if c["layout"] == "sib"]
+    roots_pool = roots_job = None
+    if scases and not any(f.startswith("Cli/Gate") or f.startswith("Gen/") for f in getattr(ck, "failed_files", [])):
+        roots_pool = ThreadPoolExecutor(max_workers=1)
+        roots_job = roots_pool.submit(sib_roots_coq, scases)
 
-    for lp in LP.values():
+    for lp in list(LP.values()) + list(SP.values()):
         lp.write(os.path.join(root, "shared_" + lp.name, "proj"))
+        os.makedirs(os.path.join(root, "shared_" + lp.name, "run"), exist_ok=True)
     with ThreadPoolExecutor(max_workers=16) as ex:
         impls = list(ex.map(run_case_impl, [(i, c, root) for i, c in enumerate(cases)]))
+
+    sib_roots = None
+    if roots_job is not None:
+        try:
+            sib_roots = roots_job.result()
+        except Exception as e:
+            ck.broken_ties.append("evaluation of Cli/GateRoots.v dependency_project_roots failed: %s" % str(e)[-1200:])
+        roots_pool.shutdown()
+    for c in scases:
+        comps = sib_components(c)
+        c["roots"] = sib_roots_py(comps)
+        if sib_roots is not None:
+            if sib_roots[tuple(comps)] != c["roots"]:
+                ck.broken_ties.append("project roots of the targets %s: model Cli/GateRoots.v %s, the property read in Python %s"
+                                      % (comps, sib_roots[tuple(comps)], c["roots"]))
+            c["roots"] = sib_roots[tuple(comps)]
+    for c in cases:
+        # the analysis results the case is judged against: the project's, or (target lists) those of the union of the selected files,
+        # or (sibling targets) the cycles below the project roots
+        c["an"] = (list_analysis(c, an[c["proj"].name]) if c["layout"] == "list" else
+                   split_analysis(c, an[c["proj"].name]) if c["layout"] == "split" else
+                   sib_analysis(c, an[c["proj"].name], c["roots"]) if c["layout"] == "sib" else an[c["proj"].name])
 
     # ---- model and spec in Coq
     model = None
@@ -1002,6 +1198,24 @@ def main(tier):
                         if n_line_bad <= 3:
                             ck.violation("printed violations %s %s differ from what `pyscn analyze` reports for the same targets: %s %s"
                                          % (sorted(p["cx"]), sorted(p["dead"]), s_cx, s_dead), replay)
+        # (2c) sibling targets: `pyscn analyze --select deps` with the same targets (same spelling, same working directory)
+        if case["layout"] == "sib" and case["same"]:
+            st = impl.get("same_targets")
+            replay["analyze_same_targets"] = st and {"cycles": st["cycles"]}
+            if st is None:
+                ck.broken_ties.append("case %d (%s): pyscn analyze on the same targets produced no report (rc %s): %s"
+                                      % (idx, " ".join(impl["argv"]), impl.get("same_targets_rc"), impl.get("same_targets_err")))
+            else:
+                if st["cycles"] != a["cycles"]:
+                    n_tie_bad += 1
+                    ck.broken_ties.append("case %d (%s): pyscn analyze on the same targets reports the cycles %s, the cycles of the "
+                                          "whole-tree analysis below the project roots %s are %s"
+                                          % (idx, " ".join(impl["argv"]), st["cycles"], replay["case"]["project_roots_by_the_model"], a["cycles"]))
+                if not case["quiet"] and judged and "MDepsFailed" not in p["msgs"] and sorted(p["cycles"]) != st["cycles"]:
+                    n_line_bad += 1
+                    if n_line_bad <= 3:
+                        ck.violation("printed cycle lines %s differ from the cycles `pyscn analyze` reports for the same targets: %s"
+                                     % (sorted(p["cycles"]), st["cycles"]), replay)
         # (3) implementation vs model
         if mv is not None:
             m_exit, m_issues, m_err, m_enabled, m_lines, m_msgs = mv[0], mv[1], mv[2], mv[3], mv[4], mv[5]
@@ -1052,7 +1266,7 @@ def main(tier):
         shapes[k] = shapes.get(k, 0) + 1
     ck.samples = [{"argv": impls[i]["argv"], "exit": impls[i]["rc"], "project": cases[i]["proj"].name,
                    "stderr_tail": impls[i]["stderr"].strip().splitlines()[-1:] if impls[i]["stderr"].strip() else []}
-                  for i in (0, 3, 20, 40, min(len(cases) - 1, n_core - 5), n_list0 - 1, n_list0 + 60, len(cases) - 1) if i < len(cases)]
+                  for i in (0, 3, 20, 40, min(len(cases) - 1, n_core - 5), n_list0 - 1, n_list0 + 60, n_sib0 - 1, n_sib0 + 7, len(cases) - 1) if i < len(cases)]
     ck.cov.update({
         "evaluations": len(cases) + len(all_projects) + 1,
         "distinct_nontrivial": len(seen_inputs),
@@ -1063,7 +1277,14 @@ def main(tier):
                 "directory/file pattern of 3 targets, a missing target in every position; for each list the violating code in each "
                 "file of the tree in turn, in none and in all; relative, ./, absolute, trailing-slash and dir/../ spellings, from "
                 "inside and outside the tree; judged against the spec / model on the union of the selected files and against "
-                "`pyscn analyze` run on the very same targets",
+                "`pyscn analyze` run on the very same targets. Sibling targets whose names are string prefixes of each other (app / "
+                "app_v2 / app.old / application, next to an unrelated name and a real sub-directory): every ordered pair short/long in "
+                "every spelling (relative, ./, absolute, trailing slash, dir/../, absolute + relative mixed both ways, from outside the "
+                "tree), longer lists, repeated and really nested targets, the import cycle in the shorter-named directory / in the "
+                "longer-named ones / in every one / in none, --max-cycles at and one below the number of cycles; judged against the "
+                "project roots Cli/GateRoots.v computes from the cleaned path components (dropped only if it IS an earlier target or "
+                "lies INSIDE another one; cross-checked against the same rule read in Python), the cycles of the whole-tree analysis "
+                "below those roots, and `pyscn analyze --select deps` on the very same targets",
         "input_distribution": {"core_boundary_cases": n_core, "random_cases": n_list0 - n_core, "projects": len(all_projects),
                                "random_projects": len(rprojs), "passed": verdicts["pass"], "failed": verdicts["fail"],
                                "config_in_target": sum(1 for c in cases if c["cfg"] is not None),
@@ -1082,6 +1303,17 @@ def main(tier):
                                    1 for c in lcases if "d" in [ATOMS[t][1] for t in c["targets"][:-1]] and ATOMS[c["targets"][-1]][1] == "f"),
                                "target_list_repeated_or_nested": sum(1 for c in lcases if list_overlap(c)),
                                "target_list_failing_gate": sum(1 for c, i in zip(cases, impls) if c["layout"] == "list" and i["rc"] != 0),
+                               "sibling_prefix_cases": len(scases),
+                               "sibling_prefix_target_lists": len({c["targets"] for c in scases}),
+                               "sibling_prefix_ordered_pairs_short_long": len({c["targets"] for c in scases if len(c["targets"]) == 2 and
+                                                                               SIB_SHORT in c["targets"] and set(c["targets"]) & set(SIB_LONG)}),
+                               "sibling_prefix_cycle_placements": {n: sum(1 for c in scases if c["proj"].name == "sib_" + n) for n in SIB_PLACEMENTS},
+                               "sibling_prefix_spellings": {m: sum(1 for c in scases if m in c["spell"]) for m in SIB_SPELLINGS},
+                               "sibling_prefix_mixed_absolute_relative": sum(1 for c in scases if "abs" in c["spell"] and len(set(c["spell"])) > 1),
+                               "sibling_prefix_cwd_outside": sum(1 for c in scases if c["cwd_out"]),
+                               "sibling_prefix_with_analyze_on_same_targets": sum(1 for c in scases if c["same"]),
+                               "sibling_prefix_target_dropped_by_model": sum(1 for c in scases if len(c["roots"]) < len(c["targets"])),
+                               "sibling_prefix_failing_gate": sum(1 for c, i in zip(cases, impls) if c["layout"] == "sib" and i["rc"] != 0),
                                "analysis_cannot_run": sum(1 for c in cases if c["proj"].empty or c["target_missing"])},
         "disagreements_checked": n_spec_bad + n_line_bad + n_tie_bad + n_known,
         "spec_disagreements": n_spec_bad, "line_disagreements": n_line_bad, "model_disagreements": n_tie_bad,
@@ -1096,6 +1328,9 @@ def main(tier):
                    "--min-severity info` on the same files; clone pairs and mock-data findings are read from check's own output",
                    "target lists: which files a list of targets selects (a directory = every .py file below it, a file = itself, each "
                    "file once) is computed by the harness and cross-checked per case against `pyscn analyze` on the same targets",
+                   "sibling targets: the cleaned absolute path of a target (filepath.Abs) is computed by the harness with os.path.normpath; "
+                   "the project roots come from Cli/GateRoots.v dependency_project_roots (tied to dependencyProjectRoots by the decision "
+                   "table of Tie/GateTie.v, whose grid holds prefix-sharing sibling names too)",
                    "stderr parser of harness/c19.py"]
     ck.finish(assumptions=["cyclomatic complexities are >= 1", "--max-cycles is not negative",
                            "no pyscn configuration file above the work directory"])
